@@ -1,7 +1,7 @@
 (* C16 part (b): the EPoller model refines the single-descriptor abstract machine (per descriptor d). *)
 Require Import List Arith Bool NArith Lia Permutation.
 Import ListNotations.
-From C16 Require Import PModel PProofs PClose PHaz PWf PAbs PSimS.
+From C16 Require Import PModel PProofs PClose PHaz PWf PLive PAbs PSimS.
 
 Arguments l_invoke : simpl never.
 Arguments l_close_path : simpl never.
@@ -906,10 +906,10 @@ Proof.
     + split; [exact A|]. split; [exact B|]. split; [exact C|]. intros id H. apply D. apply p_qs_ep_check; auto.
 Qed.
 
-Lemma p_re_ep_poll s a n desc : d < length c -> p_inv c true s -> st_opix s = n -> p_re s a ->
+Lemma p_re_ep_poll s a n desc : length c <= p_max_events -> d < length c -> p_inv c true s -> st_opix s = n -> p_re s a ->
   p_re (p_ep_poll c s desc) (l_poll c d n a) /\ st_opix (p_ep_poll c s desc) = n.
 Proof.
-  intros L I O R. unfold p_ep_poll.
+  intros LM L I O R. unfold p_ep_poll. rewrite (p_batch_all c s desc LM).
   set (ds := if desc then rev (seq 0 (length c)) else seq 0 (length c)).
   assert (ND : NoDup ds).
   { unfold ds. destruct desc; [apply NoDup_rev|]; apply seq_NoDup. }
@@ -954,7 +954,7 @@ Proof.
   - simpl in RM, OM. split; auto.
   - split; [|exact OM].
     pose proof (p_wfs_ep_poll c s desc (conj (re_be _ _ R) (re_wf _ _ R))) as [_ WP].
-    unfold p_ep_poll in WP. fold ds in WP. fold evs in WP. rewrite EV in WP.
+    unfold p_ep_poll in WP. rewrite (p_batch_all c s desc LM) in WP. fold ds in WP. fold evs in WP. rewrite EV in WP.
     set (sf := fold_left (p_ep_check c) (ev :: evs') s) in *. clearbody sf.
     destruct RM. constructor; simpl; auto.
 Qed.
@@ -969,11 +969,11 @@ Proof.
   constructor; rewrite ?E1, ?E2, ?E3, ?E4, ?E5, ?E6, ?E7, ?E8, ?E9; auto.
 Qed.
 
-Lemma p_re_step s a o n : d < length c -> st_opix s = n -> p_inv c true s ->
+Lemma p_re_step s a o n : length c <= p_max_events -> d < length c -> st_opix s = n -> p_inv c true s ->
   (forall x, o = POAddW x -> x = d -> sock = true) -> p_re s a ->
   p_re (p_step c s o) (l_step c d n a o) /\ st_opix (p_step c s o) = S n.
 Proof.
-  intros L O I OK R. unfold p_step. cbv zeta.
+  intros LM L O I OK R. unfold p_step. cbv zeta.
   match goal with |- p_re (p_set_opix ?x _) _ /\ _ =>
     assert (X : p_re x (l_step c d n a o) /\ st_opix x = n) end.
   { assert (ACT : forall y, (p_is_addw y = true -> p_act_target y = d -> sock = true) ->
@@ -1019,13 +1019,13 @@ Proof.
   eapply p_re_frame; [..|exact X1]; reflexivity.
 Qed.
 
-Lemma p_re_run ops : d < length c ->
+Lemma p_re_run ops : length c <= p_max_events -> d < length c ->
   (forall o x, In o ops -> o = POAddW x -> x = d -> sock = true) ->
   forall s a n, st_opix s = n -> p_inv c true s -> p_re s a ->
   p_re (fold_left (p_step c) ops s) (l_run c d n a ops).
 Proof.
-  intros L. induction ops as [|o ops IH]; simpl; intros OK s a n O I R; auto.
-  destruct (p_re_step s a o n L O I (fun x => OK o x (or_introl eq_refl)) R) as [R1 O1].
+  intros LM L. induction ops as [|o ops IH]; simpl; intros OK s a n O I R; auto.
+  destruct (p_re_step s a o n LM L O I (fun x => OK o x (or_introl eq_refl)) R) as [R1 O1].
   apply IH with (n := S n); auto. intros o' x H. apply OK. right; auto. apply p_inv_step; auto.
 Qed.
 
